@@ -22,8 +22,8 @@ coq/.theories.stamp: coq/Makefile $(COQSRC)
 	cd coq && timeout 3000 $(MAKE) -j16 -s
 	touch $@
 
-coq/oracle/.oracle.stamp: coq/oracle/OracleTables.v coq/oracle/OracleConsts.v
-	cd coq/oracle && timeout 600 coqc -Q . Oracle OracleTables.v && timeout 600 coqc -Q . Oracle OracleConsts.v
+coq/oracle/.oracle.stamp: coq/oracle/OracleTables.v coq/oracle/OracleConsts.v coq/oracle/OracleAudit.v
+	cd coq/oracle && timeout 600 coqc -Q . Oracle OracleTables.v && timeout 600 coqc -Q . Oracle OracleConsts.v && timeout 600 coqc -Q . Oracle OracleAudit.v
 	touch $@
 
 coq/extract/model.ml: coq/.theories.stamp coq/extract/Extract.v
